@@ -369,7 +369,8 @@ fn branch_family(out: &mut Out) {
     let patterns = ["*", "release/*", "develop", "a/*", "/*", "rel/ease/*", "é/*"];
     let branches = ["", "release", "releases", "release/", "release/1", "release/x/12", "release-x/7", "develop", "developer", "a/b", "a", "/x",
                     "rel/ease/3", "rel/ease", "é/1", "éx/1", "*", "release/*", "release/+3", "feature/+7/login", "release/99999999999/3",
-                    "release/007/x", "release/-1", "release/1a/2", "a/٣/4", "release//5", "release/4294967295", "release/4294967296/1"];
+                    "release/007/x", "release/-1", "release/1a/2", "a/٣/4", "release//5", "release/4294967295", "release/4294967296/1",
+                    "fix/日本語", "releas日/1", "a日", "日", "日本", "rel/eas日本", "éé", "x日/1"];
     for p in patterns {
         for b in branches {
             out.cases += 1;
@@ -700,11 +701,35 @@ fn barrier_family(out: &mut Out) {
     }
 }
 
+static LAST_PANIC: std::sync::Mutex<String> = std::sync::Mutex::new(String::new());
+
 fn main() {
     let fam = std::env::args().nth(1).unwrap_or_default();
     let mut out = Out { found: 0, cases: 0 };
-    std::panic::set_hook(Box::new(|_| {}));
-    match fam.as_str() {
+    std::panic::set_hook(Box::new(|info| {
+        if let Ok(mut g) = LAST_PANIC.lock() {
+            *g = info.to_string();
+        }
+    }));
+    let fam2 = fam.clone();
+    let r = std::panic::catch_unwind(std::panic::AssertUnwindSafe(|| run_family(&fam2, &mut out)));
+    if r.is_err() {
+        // the real code panicked on one of the inputs of this family: that is a concrete counterexample to "never panics"
+        let msg = LAST_PANIC.lock().map(|g| g.clone()).unwrap_or_default();
+        println!("CEX {fam} the real code panicked while the family was being run (after {} cases): {}", out.cases, msg.replace('\n', " "));
+        println!("CEX-COUNT {fam} 1 of {} cases", out.cases);
+        std::process::exit(1);
+    }
+    if out.found > 0 {
+        println!("CEX-COUNT {fam} {} of {} cases", out.found, out.cases);
+        std::process::exit(1);
+    }
+    println!("NO-CEX {fam} cases={}", out.cases);
+}
+
+fn run_family(fam: &str, out: &mut Out) {
+    let mut out = out;
+    match fam {
         "semver_order" => semver_family(&mut out),
         "pep440_order" => pep440_family(&mut out),
         "sanitize" | "sanitize_uint_claim" => sanitize_family(&mut out),
@@ -721,9 +746,4 @@ fn main() {
             std::process::exit(64);
         }
     }
-    if out.found > 0 {
-        println!("CEX-COUNT {fam} {} of {} cases", out.found, out.cases);
-        std::process::exit(1);
-    }
-    println!("NO-CEX {fam} cases={}", out.cases);
 }
